@@ -80,7 +80,7 @@ def run_history(ctx, tr, length):
             # a legitimate change of state through the public setters between queries: from here on the calculator must answer like a
             # freshly built one in the NEW state (nothing remembered from the queries made before the change)
             with quiet():
-                m = rng.choice(["same-coords-other-frame", "new-vector", "set_u", "constraint", "surface-other-frame"])
+                m = rng.choice(["same-coords-other-frame", "new-vector", "set_u", "constraint", "surface-other-frame", "unimplemented-mode"])
                 try:
                     if m == "same-coords-other-frame":
                         v = tuple(float(x) for x in ub2.reference.n_ref)
@@ -90,6 +90,10 @@ def run_history(ctx, tr, length):
                         setattr(ub2, "surf_nphi" if ub2.surface.rlv else "surf_nhkl", v)
                     elif m == "new-vector":
                         setattr(ub2, rng.choice(["n_hkl", "n_phi", "surf_nhkl", "surf_nphi"]), tuple(rng.uniform(-1, 1) for _ in range(3)))
+                    elif m == "unimplemented-mode":
+                        # a constraint set the solver has no code for: every request is refused, the reports say so — and nothing else changes
+                        hc.constraints.asdict = rng.choice([{"naz": 10.0, "mu": 1.0, "eta": 2.0}, {"delta": 5.0, "bisect": True, "chi": 3.0},
+                                                            {"qaz": 90.0, "omega": 1.0, "phi": 2.0}, {"psi": 10.0, "bisect": True, "mu": 3.0}])
                     elif m == "set_u":
                         ub2.set_u(rot_from_rotvec([rng.uniform(-0.4, 0.4) for _ in range(3)]) @ np.asarray(ub2.U))
                     else:
